@@ -99,6 +99,17 @@ func vfModifyCut(sched int) {
 		{Operation: []*spb.AFTOperation{vfNHOp(2, DefaultNetworkInstanceName, 2, id), vfNHOp(3, DefaultNetworkInstanceName, 3, id)}},
 	}
 	st := &vfFaultyModStream{vfModStream: vfModStream{msgs: script}, cutAfter: len(script), sendFailAt: -1}
+	// optionally a standby session is attached: it negotiated and announced an arbitrary LOWER id earlier
+	// (so it was the primary until the session under test announced its id)
+	standby := vfBool("standby-attached")
+	var bid *spb.Uint128
+	if standby {
+		bid = &spb.Uint128{High: vfU64("standby.hi"), Low: vfU64("standby.lo")}
+		vfAssume(vfOr(bid.High != 0, bid.Low != 0))
+		vfAssume(vfOr(bid.High < id.High, vfAnd(bid.High == id.High, bid.Low < id.Low)))
+		s.cs["B"] = &clientState{params: &clientParams{ExpectElecID: true, Persist: true}, setParams: true, lastElecID: bid}
+		s.curElecID, s.curMaster = &spb.Uint128{High: bid.High, Low: bid.Low}, "B"
+	}
 	if vfBool("send-fault") {
 		st.sendFailAt = vfInt("send-fail-at", 0, 4)
 	} else {
@@ -122,7 +133,21 @@ func vfModifyCut(sched int) {
 		vfAssert(err == nil, "C10:clean-half-close-ends-ok")
 	}
 	// PRESERVE: what was programmed before the cut stays, nothing else appears; the session's footprint is gone
-	vfAssert(len(s.cs) == 0, "C10:disconnected-session-removed")
+	if standby {
+		vfAssert(len(s.cs) == 1 && s.cs["B"] != nil, "C10:disconnected-session-removed")
+		// the departure of a session does not move the election: the highest id learnt stays, the standby is
+		// not promoted
+		if st.pos >= 2 {
+			vfAssert(s.curElecID != nil && vfAnd(s.curElecID.High == 1, s.curElecID.Low == 5), "C10:disconnect-leaves-election-state-unchanged")
+			vfAssert(s.curMaster != "B", "C10:disconnect-leaves-election-state-unchanged")
+		} else {
+			vfAssert(s.curElecID != nil && vfAnd(s.curElecID.High == bid.High, s.curElecID.Low == bid.Low), "C10:disconnect-leaves-election-state-unchanged")
+			vfAssert(s.curMaster == "B", "C10:disconnect-leaves-election-state-unchanged")
+		}
+		vfReach("with-standby")
+	} else {
+		vfAssert(len(s.cs) == 0, "C10:disconnected-session-removed")
+	}
 	var have []uint64
 	for _, idx := range []uint64{1, 2, 3} {
 		if vfNHInstalled(s.masterRIB, DefaultNetworkInstanceName, idx) {
@@ -134,7 +159,7 @@ func vfModifyCut(sched int) {
 			vfAssert(st.pos >= need, "C10:only-received-operations-are-programmed")
 		}
 	}
-	if s.curElecID != nil {
+	if s.curElecID != nil && !standby {
 		vfAssert(st.pos >= 2 && s.curElecID.High == 1 && s.curElecID.Low == 5, "C10:election-id-only-from-received-announcements")
 	}
 	if st.sendFailAt < 0 && st.pos >= 2 {
